@@ -586,6 +586,19 @@ impl Director {
     /// block, a certificate for a later round), and then the parked block is released.
     async fn directed(&mut self, run: &mut Run<'_>, template: u32) {
         let node = run.w.node;
+        // templates 7/8 need the node to lead the NEXT round, template 9 a block that extends the tip directly
+        let tries = 2 * run.w.u.n() + 2;
+        for _ in 0..tries {
+            let ready = match template {
+                7 | 8 => run.w.u.leader(self.round + 1) == node && run.w.u.leader(self.round) != node,
+                9 => self.tip.round + 1 == self.round && run.w.u.leader(self.round) != node,
+                _ => true,
+            };
+            if ready || run.diverged {
+                break;
+            }
+            self.play_round(run, false).await;
+        }
         let round = self.round;
         let leader = run.w.u.leader(round);
         run.rep.hit(&format!("template.{}", template));
@@ -765,6 +778,107 @@ impl Director {
                     self.tc = None;
                 }
             }
+            7 => {
+                // (C09) a QC and a TC of the same round race towards the node, leader of the next round:
+                // it assembles QC(r) from votes, proposes B(r+1), its mempool delivers another digest,
+                // and then a valid but stale TC(r) arrives.  It must not propose for round r+1 again.
+                let next = run.w.u.leader(round + 1);
+                if next != node {
+                    return;
+                }
+                let b = run.w.u.mk_block(leader, round, self.tip.clone(), tc, vec![]);
+                self.blocks.insert(b.digest().0, b.clone());
+                self.give(run, Stim::Msg(ConsensusMessage::Propose(b.clone()))).await;
+                let voters = match quorum_subset(&run.w.u, &mut self.rng, &others(&run.w.u, node)) {
+                    Some(v) => v,
+                    None => return,
+                };
+                for j in &voters {
+                    let v = run.w.u.mk_vote(b.digest(), round, *j);
+                    self.give(run, Stim::Msg(ConsensusMessage::Vote(v))).await;
+                }
+                let d = fresh(&mut self.rng);
+                self.give(run, Stim::Digest(d)).await;
+                let entries: Vec<(u64, u64)> = voters.iter().map(|j| (*j, self.tip.round)).collect();
+                let t = run.w.u.mk_tc(round, &entries);
+                self.give(run, Stim::Msg(ConsensusMessage::TC(t))).await;
+                if let Some(nb) = self.node_blocks.get(&(round + 1)).cloned() {
+                    self.qcs.push(nb.qc.clone());
+                    self.tip = nb.qc;
+                    self.tc = None;
+                    self.round = round + 1;
+                }
+            }
+            8 => {
+                // (C19/C04) the node collects the votes of this round; before it has voted itself, a
+                // minority of genuine votes arrives and then a vote that merely NAMES the node as author
+                // (signed by someone else, or junk).  No QC may come out of that.
+                let next = run.w.u.leader(round + 1);
+                if next != node {
+                    return;
+                }
+                let b = run.w.u.mk_block(leader, round, self.tip.clone(), tc, vec![]);
+                self.blocks.insert(b.digest().0, b.clone());
+                let mut minority: Vec<u64> = vec![];
+                let mut acc = 0;
+                for j in others(&run.w.u, node) {
+                    if run.w.u.stake(j) > 0 && acc + run.w.u.stake(j) < run.w.u.quorum() {
+                        minority.push(j);
+                        acc += run.w.u.stake(j);
+                    }
+                }
+                if minority.is_empty() || acc + run.w.u.stake(node) < run.w.u.quorum() {
+                    return;
+                }
+                for j in &minority {
+                    let v = run.w.u.mk_vote(b.digest(), round, *j);
+                    self.give(run, Stim::Msg(ConsensusMessage::Vote(v))).await;
+                }
+                let mut forged = run.w.u.mk_vote(b.digest(), round, minority[0]);
+                forged.author = run.w.u.pk(node);
+                if self.rng.gen_bool(0.5) {
+                    forged.signature = run.w.u.junk_sig();
+                }
+                self.give(run, Stim::Msg(ConsensusMessage::Vote(forged))).await;
+                // the round then goes on normally: block, remaining votes
+                self.give(run, Stim::Msg(ConsensusMessage::Propose(b.clone()))).await;
+                for j in others(&run.w.u, node) {
+                    if !minority.contains(&j) && run.w.u.stake(j) > 0 {
+                        let v = run.w.u.mk_vote(b.digest(), round, j);
+                        self.give(run, Stim::Msg(ConsensusMessage::Vote(v))).await;
+                    }
+                }
+                if let Some(nb) = self.node_blocks.get(&(round + 1)).cloned() {
+                    self.qcs.push(nb.qc.clone());
+                    self.tip = nb.qc;
+                    self.tc = None;
+                    self.round = round + 1;
+                }
+            }
+            9 => {
+                // (C04) the honest block of this round, directly extending its QC, with a TC that does
+                // not verify spliced on (the TC is not covered by the block digest): the copy must have
+                // no effect, and the honest block that follows is handled as if nothing had happened.
+                if self.tip.round + 1 != round {
+                    return;
+                }
+                let j = *others(&run.w.u, node).choose(&mut self.rng).unwrap();
+                let far = round + self.rng.gen_range(0, 6);
+                let bogus = match self.rng.gen_range(0, 3) {
+                    0 => run.w.u.mk_tc(far, &[(j, 0)]),
+                    1 => run.w.u.mk_tc(far, &[(j, 0), (j, 0), (j, 0), (j, 0)]),
+                    _ => {
+                        let mut t = run.w.u.mk_tc(far, &others(&run.w.u, node).iter().map(|x| (*x, 0)).collect::<Vec<_>>());
+                        for v in t.votes.iter_mut() {
+                            v.1 = run.w.u.junk_sig();
+                        }
+                        t
+                    }
+                };
+                let spliced = run.w.u.mk_block(leader, round, self.tip.clone(), Some(bogus), vec![]);
+                self.give(run, Stim::Msg(ConsensusMessage::Propose(spliced))).await;
+                self.give(run, Stim::Timer).await;
+            }
             _ => {}
         }
     }
@@ -922,7 +1036,7 @@ pub fn run_scenario(seed: u64, steps: usize, rep: &mut Report, use_model: bool) 
             batches_known: vec![],
         };
         d.absorb(&mut run);
-        let template = d.rng.gen_range(0, 8u32);
+        let template = d.rng.gen_range(0, 11u32);
         let template_at = d.rng.gen_range(0, steps.max(1) / 2 + 1);
         for step in 0..steps {
             if run.diverged {
